@@ -31,7 +31,8 @@ THEOREMS = [
     "repo_tables_are_the_standard_ones", "b64_roundtrip", "b64_length", "utf8_roundtrip",
     "credentials_recoverable", "preemptive_credentials_on_the_wire", "no_credentials_no_header",
     "colon_in_username_not_recoverable", "urlsafe_alphabet_refuted",
-    "body_fidelity", "credentials_keep_encoding", "soap_defaults_delivered", "caller_header_delivered",
+    "body_fidelity", "credentials_keep_encoding", "body_fidelity_on_the_wire", "body_unlabelled_on_the_wire",
+    "header_values_from_caller", "soap_defaults_delivered", "caller_header_delivered",
     "request_header_delivered", "reply_fidelity", "error_mapping", "status_mapping", "failures_propagate",
     "nonascii_url_rejected_before_io", "timeout_choice",
     "cookie_history", "cookie_header_matches_history", "jar_unique", "delivered_replies_update_jar",
@@ -102,7 +103,7 @@ class Loopback(threading.Thread):
         c.close()
 
     @staticmethod
-    def _until_peer_closes(c, limit=5.0):
+    def _until_peer_closes(c, limit=3.0):
         try:
             r, _, _ = select.select([c], [], [], limit)
             while r:
@@ -1191,6 +1192,11 @@ def run_small_families(ck, server, clients, blobs, disagree):
             add_e("MSend", "(OFail %s)" % cN(eid), res, eid if same else eid + 5000,
                   ("fault", fault, repr(res[1])[:80] if len(res) > 1 else "", kind, ""))
             ck.count("socket-fault-" + fault)
+            # let go of the exception (its traceback keeps the client socket open, and the
+            # loopback server waits for that socket before it accepts the next connection)
+            res = None
+            thr.raised = None
+            t.urlopener = None
     # 4d. open() over the wire
     for status in [200, 200, 201, 204, 301, 304, 400, 401, 404, 500, 503] + [rng.randrange(200, 600) for _ in range(20)]:
         kind, t = some_transport()
@@ -1371,6 +1377,13 @@ def replay(ck, payload):
             print("request :", st["path"], st["hdrs"], "%d body bytes" % len(ob["msg"]), "-> scripted",
                   st["status"], st["ce"], "%d bytes" % len(st["body"]), st["cookies"])
             print("observed:", describe_obs(ob))
+            label = [v for k, v in ob["headers"] if k.lower() == b"content-encoding"]
+            dec = ob["body"]
+            if label and label[0].lower() == b"gzip":
+                dec = gunzip(ob["body"])
+            elif label and label[0].lower() == b"deflate":
+                dec = inflate(ob["body"])
+            print("  server decodes the body to the envelope bytes:", dec == ob["msg"])
     else:
         print("input:", {k: v for k, v in payload.items() if k not in ("what", "replay_cmd")})
         print("re-run ./check C15 to re-evaluate this family (it is enumerated, not sampled)")
